@@ -176,6 +176,23 @@ def first_diff(a, b, path=""):
     return path, a, b
 
 
+def same_shape(a, b):
+    """same tree structure and node kinds; leaves (literals, names, callee paths) may differ"""
+    if isinstance(a, tuple) and isinstance(b, tuple):
+        if len(a) != len(b):
+            return False
+        if a and isinstance(a[0], str) and isinstance(b[0], str) and a[0] != b[0] and a[0] in NODE_TAGS and b[0] in NODE_TAGS:
+            return False
+        return all(same_shape(x, y) for x, y in zip(a, b))
+    if isinstance(a, tuple) != isinstance(b, tuple):
+        return False
+    return True
+
+
+NODE_TAGS = {"block", "let", "semi", "expr", "lit", "var", "path", "call", "bin", "un", "cast", "field", "index", "assign", "assignop", "struct", "Tup", "Array",
+             "ref", "if", "letcond", "match", "for", "while", "loop", "closure", "ret", "break", "continue", "repeat", "bind", "ts", "st", "pp", "_"}
+
+
 def brief(t, n=110):
     s = repr(t)
     return s if len(s) <= n else s[:n] + "…"
@@ -277,9 +294,10 @@ def r_twin(ctx):
         if d is None:
             obs.append(Ob("R-TWIN", s["path"], site, True, "bodies are isomorphic modulo `?`/.await/async and the twin table", rel(a["loc"])))
             continue
-        if tmpl:
+        if tmpl or same_shape(ns, na):
+            # one template, or hand-written bodies of identical structure that differ only in a leaf (a constant, a callee, a field name)
             obs.append(Ob("R-TWIN", s["path"], site, False,
-                          "template twins differ at %s: sync has %s, async has %s" % (d[0], brief(d[1]), brief(d[2])), rel(a["loc"])))
+                          "%s differ at %s: sync has %s, async has %s" % ("template twins" if tmpl else "structurally identical siblings", d[0], brief(d[1]), brief(d[2])), rel(a["loc"])))
             continue
         # hand-written pair: same effect skeleton on the stream parameters and the same parsers
         try:
